@@ -186,7 +186,7 @@ func TestC19CertChain(t *testing.T) {
 				if c.GPBFTInstance != inst {
 					vev.Fail(t, c19, "C19/certchain/instance", "certificate %d has instance %d", j, c.GPBFTInstance)
 				}
-				if cts := w.committeeTS(inst + 1); cts != nil && c.SupplementalData.PowerTable != vref.TableCID(cts.Table) {
+				if cts := w.committeeTS(inst + 1); cts != nil && c.SupplementalData.PowerTable != vref.TableCID(vref.Canonical(cts.Table)) {
 					vev.Fail(t, c19, "C19/certchain/supplemental", "certificate of instance %d commits to a table other than the node-rule committee of instance %d", inst, inst+1)
 				}
 			}
